@@ -298,14 +298,14 @@ def container_finder_runs(ctx, is_collection=True, is_sequence=True):
     class _ACause(AObj):
         _track_attribute_stores = True
 
-        def __init__(self, sign, kids, n, strategy, is_random):
+        def __init__(self, sign, kids, n, strategy, is_random, random_int=7):
             self.hint_curr = Inst('hint-data', ())
             self.hint_curr = _HC(sign)
             self.hint_curr_sanified = 'HINT'
             self.hint_childs_sane = tuple(_Sane() for _ in range(kids))
             self.pith = _Bounded('the checked object', n)
             self.conf = AConf(strategy=strategy, is_random=is_random, is_color=False)
-            self.random_int = 7
+            self.random_int = random_int
             self.exception_prefix = ''
             self.cause_str_or_none = None
             self.cause_indent = ''
@@ -371,18 +371,25 @@ def container_finder_runs(ctx, is_collection=True, is_sequence=True):
             seen.add(key)
             kids = 2 if (is_tuple_fixed or (is_mapping and sname != 'Counter')) else 1
             mm = ctx.repo.mod(finder.module)
-            for is_random in (True, False):
+            # the wrapper hands the explanation the draw it made — or None when it made none (is_random off, or no production
+            # of the hint tree needed one): both are explored; a production that needs the draw asserts it got one
+            for is_random, random_int in ((True, 7), (True, None), (False, None)):
                 lens = (5, kids) if is_tuple_fixed else (5,)
                 for n in lens:
                     del log[:]
-                    cause = _ACause(sign, kids, n, O1, is_random)
+                    cause = _ACause(sign, kids, n, O1, is_random, random_int)
                     try:
                         _call_function(F, finder, [cause], {}, 1)
                     except _Raise as ex:
+                        if is_random and random_int is None:
+                            continue      # this production needs the draw: the scenario does not arise
                         ctx.require(False, f'{finder.qual} raises {ex} on a conforming abstract object')
                     except _Abort as ex:
+                        if is_random and random_int is None:
+                            continue
                         ctx.require(False, f'cannot interpret {finder.qual}: {ex}')
                     tag = f'{finder.qualname}' + (f'[{key[1]}]' if key[1] else '') + f':is_random={is_random}' + (
+                        ':no-draw' if (is_random and random_int is None) else '') + (
                         f':length={"equal" if n == kids else "different"}' if is_tuple_fixed else '')
                     out.append((finder, mm, tag, is_tuple_fixed, n, kids, list(log)))
     finally:
